@@ -15,6 +15,7 @@ import (
 	"math/rand"
 	"os"
 	"path/filepath"
+	"regexp"
 	"sort"
 	"strings"
 	"sync/atomic"
@@ -612,11 +613,24 @@ func runCopy(mode string, seed int64, tier string, sc *Script) map[string]any {
 			pushAll(ctx, src, u, all)
 			dstT := memory.New()
 			op := []string{"push", "fetch", "exists", "preCopy", "preds"}[rng.Intn(5)]
+			if i%4 == 1 || i%4 == 3 {
+				op = "preds"
+			}
 			run := func(faults []fault) (string, *copyRun) {
 				r := newCopyRun(u, seed+int64(i))
 				r.faults = faults
 				r.maxDelay = time.Duration(100+rng.Intn(300)) * time.Microsecond
 				opts := oras.ExtendedCopyGraphOptions{CopyGraphOptions: r.options(2 + rng.Intn(3))}
+				switch i % 4 {
+				case 1:
+					// filters that keep everything, chained in both orders: a failing predecessor
+					// lookup beneath them is still a failure
+					opts.FilterAnnotation("k", nil)
+					opts.FilterArtifactType(regexp.MustCompile(".*"))
+				case 3:
+					opts.FilterArtifactType(regexp.MustCompile(".*"))
+					opts.FilterAnnotation("k", regexp.MustCompile(".*"))
+				}
 				isrc := &instrGraphSrc{instrSrc: instrSrc{inner: src, r: r}, g: src}
 				idst := &instrTarget{instrDst: instrDst{inner: dstT, r: r}, t: dstT}
 				done := make(chan error, 1)
@@ -1189,6 +1203,76 @@ func runCopy(mode string, seed int64, tier string, sc *Script) map[string]any {
 			os.RemoveAll(dir)
 			runs++
 			sc.Count("copy-file-titles:" + variant + ":" + res)
+		}
+		// Copy from an OCI layout opened from disk (its descriptors carry the reference name they
+		// were resolved by) into another layout under a new name: the new name is what the
+		// destination records - also for a process that opens the directory afterwards
+		for vi := 0; vi < 4; vi++ {
+			sc.Case("copy-renamed-into-oci-layout")
+			sc.NonTrivial()
+			u := GenDAG(rng, GenCfg{Blobs: 2, Manifests: 1 + vi%3, Indexes: vi%2 == 1})
+			root := -1
+			for k := len(u.Nodes) - 1; k >= 0; k-- {
+				if u.Nodes[k].Kind.IsManifest() {
+					root = k
+					break
+				}
+			}
+			if root < 0 {
+				continue
+			}
+			srcDir, dstDir := filepath.Join(tmp, fmt.Sprintf("rn-src%d", vi)), filepath.Join(tmp, fmt.Sprintf("rn-dst%d", vi))
+			s0, err := oci.New(srcDir)
+			if err != nil {
+				panic(err)
+			}
+			pushAll(ctx, s0, u, downClosure(u, []int{root}))
+			if err := s0.Tag(ctx, u.Nodes[root].Desc, "v1"); err != nil {
+				panic(err)
+			}
+			src, err := oci.New(srcDir) // opened afresh from disk
+			if err != nil {
+				panic(err)
+			}
+			dst, err := oci.New(dstDir)
+			if err != nil {
+				panic(err)
+			}
+			dstRef := []string{"v2", "v1", "release", "v2"}[vi]
+			_, cerr := oras.Copy(ctx, src, "v1", dst, dstRef, oras.DefaultCopyOptions)
+			verdict := "fails-or-complete"
+			if cerr != nil {
+				verdict = "refused:" + strings.ReplaceAll(cerr.Error(), " ", "_")
+			} else {
+				for _, how := range []string{"live", "dir", "fs"} {
+					var st oras.ReadOnlyTarget = dst
+					switch how {
+					case "dir":
+						st, err = oci.New(dstDir)
+					case "fs":
+						st, err = oci.NewFromFS(ctx, os.DirFS(dstDir))
+					}
+					if err != nil {
+						verdict = "reopen-failed(" + how + ")"
+						break
+					}
+					d, rerr := st.Resolve(ctx, dstRef)
+					if rerr != nil || d.Digest != u.Nodes[root].Desc.Digest {
+						verdict = fmt.Sprintf("ok-but-%s-does-not-resolve-%s", how, dstRef)
+						break
+					}
+					if dstRef != "v1" {
+						if _, rerr := st.Resolve(ctx, "v1"); rerr == nil {
+							verdict = fmt.Sprintf("ok-but-%s-resolves-the-source-name", how)
+							break
+						}
+					}
+				}
+			}
+			sc.Op(verdict, "cp cancelled at=oci-renamed dstref=%s", dstRef)
+			os.RemoveAll(srcDir)
+			os.RemoveAll(dstDir)
+			runs++
 		}
 		// one blob listed several times in a manifest, with and without titles, into a fresh
 		// file store: the copy moves the bytes once; every listed occurrence is there afterwards
